@@ -708,6 +708,58 @@ pub fn render_staged(
     })
 }
 
+/// Staged route without formatting the tree (Display is a recursive debugging
+/// aid and not part of rendering).
+pub fn render_staged_noshow(
+    cfg: &Cfg,
+    input: &[u8],
+    widths: &[usize],
+) -> Outcome<Vec<(Outcome<String>, Outcome<Vec<Line>>)>> {
+    let fuel = fuel_for(input.len());
+    guarded(fuel, || {
+        with_config!(cfg, |c| {
+            let dom = c.parse_html(input)?;
+            let tree = c.dom_to_render_tree(&dom)?;
+            let mut res = Vec::new();
+            for &w in widths {
+                let t1 = tree.clone();
+                let s = guarded(fuel, || c.render_to_string(t1, w));
+                let t2 = tree.clone();
+                let l = guarded(fuel, || c.render_to_lines(t2, w).map(conv_lines));
+                res.push((s, l));
+            }
+            Ok(res)
+        })
+    })
+}
+
+/// Cross-configuration staged route: the tree is built by `build`
+/// (parse_html + dom_to_render_tree) and rendered by `render`
+/// (render_to_string on clones), as an application that parses once and
+/// renders for several front ends would do.
+pub fn render_cross(
+    build: &Cfg,
+    render: &Cfg,
+    input: &[u8],
+    widths: &[usize],
+) -> Outcome<Vec<Outcome<String>>> {
+    let fuel = fuel_for(input.len());
+    guarded(fuel, || {
+        let tree = with_config!(build, |c| {
+            let dom = c.parse_html(input)?;
+            c.dom_to_render_tree(&dom)
+        })?;
+        with_config!(render, |c| {
+            let mut res = Vec::new();
+            for &w in widths {
+                let t1 = tree.clone();
+                res.push(guarded(fuel, || c.render_to_string(t1, w)));
+            }
+            Ok(res)
+        })
+    })
+}
+
 /// `add_css` / `add_agent_css` alone (C17a).
 pub fn try_add_css(origin: Origin, css: &str) -> Outcome<()> {
     guarded(fuel_for(css.len()), || {
